@@ -67,8 +67,10 @@ TShare ==
 TRecover ==
   /\ IsEv("Recover")
   /\ LET r   == Recs[l]
+         \* r.drop[i]: 0 the share as dealt, 1 its last y removed, 2 one y appended
          sel == [i \in 1..Len(r.sel) |-> [x |-> shares[r.sel[i]].x,
-                                         y |-> SubSeq(shares[r.sel[i]].y, 1, Len(shares[r.sel[i]].y) - r.drop[i])]]
+                                         y |-> IF r.drop[i] = 2 THEN Append(shares[r.sel[i]].y, One)
+                                               ELSE SubSeq(shares[r.sel[i]].y, 1, Len(shares[r.sel[i]].y) - r.drop[i])]]
          s   == S!Selected(r.t, sel)
      IN /\ (r.ok = 1) = s.ok
         /\ s.ok =>
